@@ -267,6 +267,16 @@ class Builder:
             out = co.Registered(b[1])
             self.containers.append((out, "registered"))
             return out
+        if k == "registeredsub":
+            self.info["shapes"].add("registeredsub")
+            out = co.RegisteredSub(b[1], extra=["x", b[1]])
+            self.containers.append((out, "registeredsub"))
+            return out
+        if k == "complexsub":
+            self.info["shapes"].add("complexsub")
+            out = co.ComplexSub(b[1], 1)
+            out.unit = "V"
+            return out
         if k == "regex":
             self.info["shapes"].add("regex")
             import re as _re
@@ -332,6 +342,9 @@ def graph_equal(a, b):
             if not scalar_equal(x, y) if isinstance(x, (complex, datetime.datetime)) else x != y:
                 return "%s: value %r != %r" % (path, x, y)
             continue
+        if isinstance(x, complex) and type(x) is not complex:
+            if not scalar_equal(complex(x), complex(y)):
+                return "%s: value %r != %r" % (path, x, y)
         if isinstance(x, (str, int)) and type(x) not in (str, int, bool):
             if str.__eq__(x, y) is not True if isinstance(x, str) else int.__eq__(x, y) is not True:
                 return "%s: value %r != %r" % (path, x, y)
@@ -549,7 +562,8 @@ def blueprints(max_leaves=14):
                      st.integers(0, 8).map(lambda i: ("named", i)), st.integers(0, 1).map(lambda i: ("enum", i)),
                      st.sampled_from(["s1", "", "x y"]).map(lambda s: ("strsub", s)), st.integers(-3, 3).map(lambda i: ("intsub", i)),
                      st.integers(0, 5).map(lambda i: ("frozen", i)), st.integers(0, 5).map(lambda i: ("registered", i)),
-                     st.integers(0, 5).map(lambda i: ("regex", i)))
+                     st.integers(0, 5).map(lambda i: ("regex", i)), st.integers(0, 5).map(lambda i: ("registeredsub", i)),
+                     st.integers(0, 5).map(lambda i: ("complexsub", i)))
     ref = st.integers(0, 40).map(lambda n: ("ref", n))
     attr = st.sampled_from(["a", "b", "c", "name", "value"])
     hkey = st.one_of(hashable_scalars().map(lambda v: ("s", v)), hashable_scalars().map(lambda v: ("s", v)),
@@ -644,7 +658,7 @@ def arms(tier):
 
 REQUIRED_CLASSES = ["shape:plain", "shape:slots", "shape:slotsdict", "shape:getset", "shape:newargs", "shape:reduced", "shape:listsub",
                     "shape:dictsub", "shape:setsub", "shape:tuplesub", "shape:strsub", "shape:intsub", "shape:enum", "shape:nt", "shape:frozen",
-                    "shape:named", "shape:module", "shape:registered", "shape:regex", "shape:t", "shape:fs", "shape:od", "sharing", "cycle:constructible", "cycle:unconstructible",
+                    "shape:named", "shape:module", "shape:registered", "shape:registeredsub", "shape:complexsub", "shape:regex", "shape:t", "shape:fs", "shape:od", "sharing", "cycle:constructible", "cycle:unconstructible",
                     "instance-as-key", "text:tuple/complex/name-subset-only", "text:has-object-tags"]
 
 
